@@ -8,8 +8,8 @@ Open Scope Z_scope.
 Definition meq (m m' : mem) : Prop := forall t a, m t a = m' t a.
 Definition seq2 (s s' : state) : Prop :=
   vars s = vars s' /\ meq (smem s) (smem s') /\ srd s = srd s' /\ sworld s = sworld s' /\ spred s = spred s'.
-Definition rel_opt (a b : option state) : Prop :=
-  match a, b with Some x, Some y => seq2 x y | None, None => True | _, _ => False end.
+Definition rel_out (a b : outcome) : Prop :=
+  match a, b with Next x, Next y => seq2 x y | Halt, Halt => True | Stuck, Stuck => True | _, _ => False end.
 
 (* the oracle depends on memory only through its contents *)
 Definition oracle_ext (O : oracle) : Prop :=
@@ -44,7 +44,7 @@ Ltac eqb_cases :=
   | |- context [String.eqb ?a ?b] => destruct (String.eqb a b) eqn:?
   end.
 
-Lemma exec_ext O : oracle_ext O -> forall i s s', seq2 s s' -> rel_opt (exec O i s) (exec O i s').
+Lemma exec_ext O : oracle_ext O -> forall i s s', seq2 s s' -> rel_out (exec O i s) (exec O i s').
 Proof.
   intros [Hs _] i s s' R. pose proof R as [Ev [Em [Er [Ew Ep]]]].
   unfold exec. rewrite <- Ep.
